@@ -102,6 +102,12 @@ func buildDirs(root, repo string) []dirSpec {
 	os.WriteFile(filepath.Join(syn, "zz-broken.yaml"), []byte("apiVersion: v1\nkind: Pod\nmetadata:\n  name: zzbroken\n   labels: [unclosed\n"), 0o644)
 	add("fatal-same-priority", &wm.World{NSs: nss, WLs: wls, ANPs: []wm.ANP{{Name: "a", Prio: 5, Subject: wm.APeer{Namespaces: all}, Ingress: []wm.ARule{{Action: "Deny", Peers: []wm.APeer{{Namespaces: all}}}}},
 		{Name: "b", Prio: 5, Subject: wm.APeer{Namespaces: all}, Ingress: []wm.ARule{{Action: "Allow", Peers: []wm.APeer{{Namespaces: all}}}}}}}, 1, "w1")
+	// a rule's named port that the selected pod declares under another protocol (and one it declares under the same one)
+	add("named-port-protocol-mismatch", &wm.World{NSs: nss, WLs: []wm.Workload{
+		{Kind: "Deployment", NS: "ns1", Name: "w1", Labels: map[string]string{"app": "a"}, Ports: []wm.CPort{{Name: "dns", Num: 53, Proto: "UDP"}, {Name: "http", Num: 80}}, Replicas: 1},
+		{Kind: "Deployment", NS: "ns1", Name: "w2", Labels: map[string]string{"app": "b"}, Ports: []wm.CPort{{Name: "dns", Num: 53}}, Replicas: 1}},
+		NPs: []wm.NP{{NS: "ns1", Name: "named", PodSel: wm.Sel{}, Types: []string{"Ingress"},
+			Ingress: []wm.NPRule{{Peers: []wm.NPPeer{{Pod: all}}, Ports: []wm.NPPort{{HasPort: true, Name: "dns"}, {HasPort: true, Name: "http", Proto: "UDP"}, {HasPort: true, Name: "nosuch", Proto: "SCTP"}}}}}}}, 1, "w1")
 	// many resources (more than any size-derived default in the code base: 120 objects, 40 workloads)
 	big := &wm.World{NSs: nss}
 	for i := 0; i < 40; i++ {
